@@ -25,11 +25,18 @@ EXTENDS Integers, FiniteSets, Sequences, TLC
 
 CONSTANTS
   Configs,     \* set of configurations explored in one run; a configuration is a record
-               \*   [id, n, power, last, maxMal, maxHdr, classes]:
+               \*   [id, n, power, last, maxMal, maxHdr, classes, hist, npower, ntotal, nsize]:
                \*   n validators of height `last` (slots 1..n, address order) with voting powers power[1..n];
                \*   last = height of the last committed block (0 = genesis: the block under test is block 1);
                \*   at most maxMal simultaneous malformations, at most maxHdr of them outside the commit slots;
-               \*   classes = the slot classes the adversary may use in this configuration
+               \*   classes = the slot classes the adversary may use in this configuration;
+               \*   hist = the validator change block `last` itself carries (none | lower | raise | add | remove):
+               \*   the set of height last+1 gives the validator of slot k the power npower[k] (0 = removed),
+               \*   has nsize members and ntotal power.  The LastCommit of block last+1 is signed by, and must be
+               \*   judged against, the set of height `last` (state.LastValidators), whatever the next set is.
+  JudgeBy,     \* "last": the commit is verified against the set of height Last (state.LastValidators as ExecBlock
+               \* leaves it: a copy taken before EndBlock changes the next set).  "next" = LastValidators aliasing the
+               \* changed set: used only by the engine's second sanity run, which must violate CodeEqualsDecl.
   CheckVHash   \* TRUE: ValidateBlock compares Header.ValidatorsHash with state.Validators.Hash()
                \* (the code since the C02 repair).  FALSE = the code as found: used only by the
                \* engine's sanity run, which must make TLC report CodeEqualsDecl violated.
@@ -47,6 +54,9 @@ Last   == c.last
 MaxMal == c.maxMal
 MaxHdr == c.maxHdr
 Val == 1..N
+(* the set VerifyCommit is handed *)
+NJ     == IF JudgeBy = "last" THEN N ELSE c.nsize
+PW(k)  == IF JudgeBy = "last" THEN Power[k] ELSE c.npower[k]
 
 (* ---------------------------------------------------------------------------------------- *)
 (* The abstract block.                                                                        *)
@@ -143,7 +153,11 @@ First(s)    == MinOf(Present(s))
 PowerOf(S) == LET RECURSIVE P(_)
                   P(T) == IF T = {} THEN 0 ELSE LET x == CHOOSE y \in T : TRUE IN Power[x] + P(T \ {x})
               IN P(S)
+PowerJ(S)  == LET RECURSIVE P(_)
+                  P(T) == IF T = {} THEN 0 ELSE LET x == CHOOSE y \in T : TRUE IN PW(x) + P(T \ {x})
+              IN P(S)
 Total == PowerOf(Val)
+TotalJ == IF JudgeBy = "last" THEN Total ELSE c.ntotal
 
 (* ---------------------------------------------------------------------------------------- *)
 (* TRANSCRIBED: Block.ValidateBasic (block.go)                                                *)
@@ -182,7 +196,7 @@ ValidateCommit(b) ==
 VerifyCommit(b) ==
   LET s == SlotSeq(b) IN
   IF b.nilp = "commit"      THEN "vcNilCommit"
-  ELSE IF Len(s) # N        THEN "vcSize"
+  ELSE IF Len(s) # NJ       THEN "vcSize"
   ELSE IF Present(s) = {}   THEN "vcHeight"        \* commit.Height() = 0 # Last
   ELSE IF Hgt(s[First(s)]) # "ok" THEN "vcHeight"  \* height != commit.Height()
   ELSE LET r0  == Rnd(s[First(s)])
@@ -194,8 +208,8 @@ VerifyCommit(b) ==
                     ELSE IF Typ(s[k]) # "pc" THEN "vcType"
                     ELSE IF ~LabelOK(s[k]) THEN "vcLabel"
                     ELSE "vcSig"
-            ELSE LET tally == PowerOf({k \in Present(s) : Blk(s[k]) = "B"})
-                 IN IF tally > (Total * 2) \div 3 THEN "ok" ELSE "vcPower"
+            ELSE LET tally == PowerJ({k \in Present(s) : Blk(s[k]) = "B"})
+                 IN IF tally > (TotalJ * 2) \div 3 THEN "ok" ELSE "vcPower"
 
 (* TRANSCRIBED: ConsensusState.ValidateBlock (pbft/state.go) *)
 ValidateBlock(b) ==
@@ -207,7 +221,7 @@ ValidateBlock(b) ==
        ELSE IF b.prop = "outsider" THEN "proposer"
        ELSE IF Last = 0
               THEN IF Size(b) # 0 THEN "h1Precommits" ELSE "ok"
-              ELSE IF Size(b) # N THEN "commitSize"
+              ELSE IF Size(b) # NJ THEN "commitSize"
                    ELSE VerifyCommit(b)
 
 Accept(b) == ValidateBlock(b) = "ok"
